@@ -1,4 +1,59 @@
-(* C14 placeholder, replaced below *)
-From RV Require Import Model.Mapping.
-Theorem C14_placeholder : True. Proof. exact I. Qed.
-Eval cbv in "ASSUMPTIONS-OF C14_placeholder"%string. Print Assumptions C14_placeholder.
+(* C14  Files map to class and node names one-to-one, collisions rejected.  Statements only;
+   proofs in Proofs/NamesFacts.v about Model/Names.v (entity_of, discover).
+   PARTIAL: the directory walk (walkdir, symlinks, std::path) that produces the entry list is
+   outside the model; the naming rule itself is compared with a Python reading on every run. *)
+From RV Require Import Model.Names Proofs.NamesFacts.
+
+(** Discovery succeeds exactly when all names are distinct ... *)
+Theorem C14_succeeds_iff_names_distinct :
+  forall kind compose entries,
+    (exists m, discover kind compose entries = Ok m) <-> NoDup (map en_name (entities kind compose entries)).
+Proof. exact discover_succeeds_iff_distinct. Qed.
+Eval cbv in "ASSUMPTIONS-OF C14_succeeds_iff_names_distinct"%string. Print Assumptions C14_succeeds_iff_names_distinct.
+
+(** ... and then the table holds exactly one entity per YAML file, in walk order. *)
+Theorem C14_one_entity_per_file :
+  forall kind compose entries m,
+    discover kind compose entries = Ok m ->
+    m = entities kind compose entries /\ NoDup (map en_name m).
+Proof. exact discover_exact. Qed.
+Eval cbv in "ASSUMPTIONS-OF C14_one_entity_per_file"%string. Print Assumptions C14_one_entity_per_file.
+
+(** A collision is rejected with an error naming the name and both files. *)
+Theorem C14_collision_names_both_files :
+  forall kind compose entries er,
+    discover kind compose entries = Err er ->
+    exists n p q e1 e2,
+      er = EDuplicate (kind_name kind) n p q /\
+      In e1 (entities kind compose entries) /\ In e2 (entities kind compose entries) /\
+      en_name e1 = n /\ en_name e2 = n /\
+      ((p = join "/" (en_path e1) /\ q = join "/" (en_path e2)) \/ (p = join "/" (en_path e2) /\ q = join "/" (en_path e1))).
+Proof. exact discover_collision. Qed.
+Eval cbv in "ASSUMPTIONS-OF C14_collision_names_both_files"%string. Print Assumptions C14_collision_names_both_files.
+
+(** Looking a discovered name up yields the one entity (file) that defines it. *)
+Theorem C14_lookup_is_the_defining_file :
+  forall kind compose entries m n e,
+    discover kind compose entries = Ok m -> find_entity n m = Some e ->
+    In e (entities kind compose entries) /\ en_name e = n /\
+    (forall e', In e' m -> en_name e' = n -> e' = e).
+Proof. exact discover_lookup. Qed.
+Eval cbv in "ASSUMPTIONS-OF C14_lookup_is_the_defining_file"%string. Print Assumptions C14_lookup_is_the_defining_file.
+
+(** Including a discovered name that does not start with a dot looks that very name up. *)
+Theorem C14_discovered_names_are_absolute :
+  forall loc cls, no_leading_dot cls -> abs_class_name loc cls = cls.
+Proof. exact abs_absolute. Qed.
+Eval cbv in "ASSUMPTIONS-OF C14_discovered_names_are_absolute"%string. Print Assumptions C14_discovered_names_are_absolute.
+
+(** The naming rule on representative shapes (evaluated in the kernel). *)
+Example C14_naming_examples :
+  option_map en_name (entity_of KClass true ["a"; "b.c.yml"]) = Some "a.b.c" /\
+  option_map en_name (entity_of KClass true ["x"; "init.yaml"]) = Some "x" /\
+  option_map en_loc (entity_of KClass true ["x"; "y"; "init.yml"]) = Some ["x"] /\
+  option_map en_name (entity_of KClass true ["x"; "reinit.yml"]) = Some "x.reinit" /\
+  option_map en_name (entity_of KNode false ["x"; "n.yml"]) = Some "n" /\
+  option_map en_name (entity_of KNode true ["x"; "n.yml"]) = Some "x.n" /\
+  option_map en_name (entity_of KNode true ["_x"; "y"; "n.yml"]) = Some "n" /\
+  entity_of KClass true ["x"; "notes.txt"] = None /\ entity_of KClass true [".yml"] = None.
+Proof. repeat split; reflexivity. Qed.
